@@ -2,6 +2,10 @@
  * Source of the postconditions: C18 "consisting only of characters of the scheme's alphabet",
  * "decoding is case-insensitive"; C05/C10 "malformed strings are rejected": the result is an index
  * of a real alphabet character (strictly below the terminator) or -1. */
+/*@ ghost */
+#ifndef VERIF_LOOKUP_CAP
+#define VERIF_LOOKUP_CAP 40
+#endif
 /*@ clause pre.cstring src=call-site */
 __CPROVER_requires(__CPROVER_r_ok(s, 1) && verif_strlen(s) < VERIF_LOOKUP_CAP)
 /*@ clause frame src=property props=C14 */
@@ -15,6 +19,10 @@ __CPROVER_ensures(__CPROVER_return_value == -1 || s[__CPROVER_return_value] == (
 __CPROVER_ensures(!(verif_ghost_idx < (size_t)verif_strlen(s)) ||
                   (__CPROVER_return_value != -1 && verif_ghost_idx >= (size_t)__CPROVER_return_value) ||
                   s[verif_ghost_idx] != (char)verif_toupper(c))
+/* the three clauses above quantify through the ghost index, which is strong when proved but gives a caller only one
+   instance; callers get the complete functional specification: */
+/*@ clause post.functional src=property props=C18,C05,C10 */
+__CPROVER_ensures(__CPROVER_return_value == verif_index_of(s, (char)verif_toupper(c)))
 /*@ harness */
 void h_Utility_lookup(void) {
   verif_ghost_idx = nondet_size_t();
